@@ -55,7 +55,7 @@ fn quote(s: &str) -> String {
     if s.contains(',') || s.contains('"') { format!("\"{}\"", s.replace('"', "\"\"")) } else { s.to_string() }
 }
 
-struct Cfg { bare_right: bool, lex: String, chardef: String, unk: String, feature_def: String, rewrite_def: String, corpus: String, user: String, bigrams: Vec<(String, String)>, k: usize }
+struct Cfg { virtual_tokens: bool, bare_right: bool, lex: String, chardef: String, unk: String, feature_def: String, rewrite_def: String, corpus: String, user: String, bigrams: Vec<(String, String)>, k: usize }
 
 fn gen_cfg(rng: &mut Rng) -> Cfg {
     let pos = ["名詞", "動詞", "助詞"];
@@ -109,14 +109,25 @@ fn gen_cfg(rng: &mut Rng) -> Cfg {
         for _ in 0..2 + rng.below(4) { let (s, f) = rng.pick(&rows); corpus.push_str(&format!("{}\t{}\n", s, f)); }
         corpus.push_str("EOS\n");
     }
+    // 1 configuration in 3: the corpus also holds tokens that are neither lexicon words nor compatible
+    // with an unk.def entry (the trainer gives them feature-less labels of their own)
+    let virtual_tokens = rng.chance(1, 3);
+    if virtual_tokens {
+        for _ in 0..1 + rng.below(2) {
+            let (s, f) = rng.pick(&rows);
+            corpus.push_str(&format!("{}\t{}\n{}\t感動詞,未知{}\n", s, f, rng.pick(&["zq", "猫犬", "q"][..]), rng.below(3)));
+            if rng.chance(1, 2) { let (s, f) = rng.pick(&rows); corpus.push_str(&format!("{}\t{}\n", s, f)); }
+            corpus.push_str("EOS\n");
+        }
+    }
     let mut user = String::new();
     // a 0,0,0 user word with exactly the features of a seed word (must behave like that word)
     { let (_, f) = rng.pick(&rows); user.push_str(&format!("uz,0,0,0,{}\n", f)); }
-    for i in 0..1 + rng.below(3) {
-        let s = format!("u{}", ["x", "y", "猫猫"][i as usize % 3]);
+    for i in 0..1 + rng.below(6) {
+        let s = format!("u{}{}", ["x", "y", "猫猫"][i as usize % 3], i);
         if rng.chance(1, 2) { user.push_str(&format!("{},0,0,0,{}\n", s, feats(rng))); } else { user.push_str(&format!("{},1,1,{},{}\n", s, rng.range(-50, 50), feats(rng))); }
     }
-    Cfg { bare_right, lex, chardef, unk, feature_def, rewrite_def, corpus, user, bigrams, k }
+    Cfg { virtual_tokens, bare_right, lex, chardef, unk, feature_def, rewrite_def, corpus, user, bigrams, k }
 }
 
 struct Files { lex: Vec<u8>, matrix: Vec<u8>, unk: Vec<u8>, user: Vec<u8>, left: Vec<u8>, right: Vec<u8>, cost: Vec<u8> }
@@ -148,8 +159,10 @@ pub fn run(prop: &str, seed: u64, n: usize, outdir: &str, _corpus: Option<&str>)
     let mut dist: BTreeMap<String, usize> = BTreeMap::new();
     let mut samples = vec![];
     let mut master = Rng::new(seed ^ 0x7A11);
-    for _ in 0..n {
-        let sub = master.next();
+    // VERIF_SUBSEED=<case seed> re-runs exactly one case and prints the connection costs that differ
+    let only: Option<u64> = std::env::var("VERIF_SUBSEED").ok().and_then(|x| x.parse().ok());
+    for _ in 0..(if only.is_some() { 1 } else { n }) {
+        let sub = only.unwrap_or_else(|| master.next());
         let mut rng = Rng(sub);
         let c = gen_cfg(&mut rng);
         let iters = 2 + rng.below(5);
@@ -158,6 +171,9 @@ pub fn run(prop: &str, seed: u64, n: usize, outdir: &str, _corpus: Option<&str>)
         flags.push(("k3_bare_template".into(), c.bare_right as u8));
         let mut model = match std::panic::catch_unwind(std::panic::AssertUnwindSafe(|| train(&c, iters))) { Ok(Some(m)) => m, _ => { *dist.entry("training_failed".into()).or_default() += 1; continue; } };
         *dist.entry(format!("templates_{}", if c.k >= 8 { "ge8" } else { "lt8" })).or_default() += 1;
+        if c.virtual_tokens { *dist.entry("corpus_with_uncovered_tokens".into()).or_default() += 1; }
+        let maxabs_of = |m: &Model| -> f64 { m.verif_merged().map(|(sets, matrix)| sets.iter().map(|s| s.0.abs()).chain(matrix.iter().map(|x| x.2.abs())).fold(0f64, f64::max)).unwrap_or(0.0) };
+        let max_before = maxabs_of(&model);
         // ---- C15 part 1: generate from the in-memory model (before any user lexicon)
         let f0 = match generate(&mut model) { Some(f) => f, None => { flags.push(("c14_generate".into(), 0)); continue; } };
         let f0b = generate(&mut model).unwrap();
@@ -170,6 +186,7 @@ pub fn run(prop: &str, seed: u64, n: usize, outdir: &str, _corpus: Option<&str>)
         flags.push(("c15_roundtrip_files".into(), same_files(&f0, &g2) as u8));
         // add the user lexicon on both sides (after a generation: the cached merged model must be refreshed)
         let u1 = model.read_user_lexicon(c.user.as_bytes()).is_ok();
+        if maxabs_of(&model) > max_before { *dist.entry("user_lexicon_raises_largest_weight".into()).or_default() += 1; }
         let u2 = m2.read_user_lexicon(c.user.as_bytes()).is_ok();
         let f1 = generate(&mut model).unwrap();
         let g3 = generate(&mut m2).unwrap();
@@ -242,6 +259,11 @@ pub fn run(prop: &str, seed: u64, n: usize, outdir: &str, _corpus: Option<&str>)
                         flags.push((format!("c16_{}_dims", name), dims_ok as u8));
                         let mut worst = 0i64;
                         if dims_ok { for r in 0..bc.len() { for l in 0..bc[r].len() { worst = worst.max((bc[r][l] as i64 - mconn[r][l] as i64).abs()); } } }
+                        if only.is_some() {
+                            eprintln!("{} k={} worst={}", name, c.k, worst);
+                            if dims_ok { for r in 0..bc.len() { for l in 0..bc[r].len() { if (bc[r][l] as i64 - mconn[r][l] as i64).abs() > c.k as i64 + 1 { eprintln!("  conn({},{}) matrix={} bigram={}", r, l, mconn[r][l], bc[r][l]); } } } }
+                            if !dual { eprintln!("bigram.left:\n{}bigram.right:\n{}bigram.cost:\n{}lex:\n{}unk:\n{}", String::from_utf8_lossy(&f1.left), String::from_utf8_lossy(&f1.right), String::from_utf8_lossy(&f1.cost), String::from_utf8_lossy(&f1.lex), String::from_utf8_lossy(&f1.unk)); }
+                        }
                         flags.push((format!("c16_{}_within_k1", name), (dims_ok && worst <= c.k as i64 + 1) as u8));
                     }
                     _ => flags.push((format!("c16_{}_compiles", name), 0)),
